@@ -47,13 +47,17 @@ class Result:
 
 
 def rundir(tag):
-    d = os.path.join(BUILD, "tlc", tag)
+    # one directory per (tag, process): concurrent runs of the same check must not share TLC work files
+    d = os.path.join(BUILD, "tlc", "%s.%d" % (tag, os.getpid()))
     if os.path.isdir(d):
         shutil.rmtree(d)
     os.makedirs(d)
     for f in glob.glob(os.path.join(SPEC, "*.tla")):
         shutil.copy(f, d)
-    v = os.path.join(BUILD, "Vocab.tla")
+    v = os.path.join(BUILD, "vocab", str(os.getpid()), "Vocab.tla")
+    if not os.path.exists(v):
+        # worker processes of a check (multiprocessing) use their parent's tables
+        v = os.path.join(BUILD, "vocab", str(os.getppid()), "Vocab.tla")
     if os.path.exists(v):
         shutil.copy(v, d)
     return d
@@ -150,8 +154,9 @@ def run(module, cfg, tag=None, mode="check", workers=None, simulate=None, depth=
     r.dir = d
     parse_output(r)
     shutil.rmtree(os.path.join(d, "states"), ignore_errors=True)
-    if not keep:
-        shutil.rmtree(d, ignore_errors=True)
+    failed = r.rc != 0 or r.violated
+    if not keep or not failed:
+        shutil.rmtree(d, ignore_errors=True)      # kept only when something went wrong (for inspection)
     bad = [x for x in r.errors if not x.startswith("Invariant") and not x.startswith("Temporal")
            and not x.startswith("Action property") and not x.startswith("Deadlock")]
     if bad or (r.rc not in (0,) and not r.violated) or (r.violated and not allow_violation and False):
